@@ -13,8 +13,9 @@ TRUSTED = ("TLC 1.8.0 + CommunityModules; CPython 3.12.1 tracing semantics; prot
 # property -> (engine modules, technique, level text, level note)
 CLAIMED = {
     'C04': (['Limiter', 'MC_Limiter', 'Trace_Limiter'],
-            "TLA+ spec Limiter.tla model-checked with TLC (invariants CountBound/Spacing/WindowRespected, action "
-            "properties), spec behaviours replayed into the real limiter, recorded executions (sequential histories "
+            "TLA+ spec Limiter.tla model-checked with TLC (invariants CountBound/Spacing/WindowRespected/LastIsLatest, "
+            "action properties; ideal clock and NextSetBack = the wall clock may be set back), spec behaviours of both "
+            "graphs replayed into the real limiter, recorded executions (sequential histories, also with the clock set back, "
             "and every bounded-preemption 2/3-thread schedule) validated against the spec by TLC",
             "Exhaustive within bounds for the design (2-3 threads, <=4 hits, clock <=4, the settings grid incl. "
             "unparsable values and windows); the implementation is bound to it by replaying graph walks of the "
